@@ -196,6 +196,17 @@ def t3_reexport() -> Iterator[Dict[str, Any]]:
                                             cls("X", body=flat(fn("f"), cls("In", "Helper"), alias("h", "Helper"), alias("t", "tool"))))),
                    mod("other", 1, ops=flat(cls("Helper", body=[fn("other_h")]))),
                    mod("use", 1, ops=flat(frm("p", "X"), cls("U", "X.In"), alias("uh", "X.h")))], "T3", idiom="names-inside-moved-class")
+    # a re-exported MODULE with relative imports of its own (siblings in its original package; an outer module has the same names):
+    # what `from . import helper` means is decided by where the module is written, not by where it is documented
+    yield project([mod("pkg", pkg=True, ops=[frm("_vendor", "codec", lvl=1)], all=["codec"]),
+                   mod("helper", 1, ops=flat(fn("encode"), fn("outer_only"))),
+                   mod("_vendor", 1, pkg=True),
+                   mod("helper", 3, ops=flat(fn("encode"), fn("inner_only"))),
+                   mod("codec", 3, ops=flat(frm("", "helper", lvl=1), frm("helper", "encode", lvl=1), frm("", "helper", "outer", lvl=2),
+                                            cls("Codec", body=[alias("enc", "encode")]), alias("h", "helper.encode"), alias("o", "outer.encode"))),
+                   mod("client", 1, ops=flat(frm("pkg", "codec"), alias("e", "codec.encode"), alias("he", "codec.helper.encode"),
+                                             frm("pkg._vendor", "codec", "vcodec"), alias("ve", "vcodec.helper.encode")))],
+                  "T3", idiom="moved-module-with-relative-imports")
     # origin lists the name in its own __all__: no move
     yield project([mod("p", pkg=True, ops=[frm("_impl", "X", lvl=1)], all=["X"]),
                    mod("_impl", 1, ops=flat(cls("X")), all=["X"]),
@@ -481,6 +492,14 @@ def t_c04_class_members() -> Iterator[Dict[str, Any]]:
         else:
             yield project([mod("p", pkg=True), origin, mod("m", 1, ops=shadowed), mod("u", 1, ops=flat(frm("m", "C", lvl=1), use))],
                           "C04", members="class-body-binding-shadows-inherited", where=where)
+    # a member looked up DURING analysis (an alias `go = Job.run`) through a class whose grand-base has been moved by a re-export
+    # analysed before (or after) the module that names its old location: multiple inheritance, the member exists on both sides
+    yield project([mod("impl", ops=flat(cls("Fast", body=[fn("run")]))),
+                   mod("api", ops=[frm("impl", "Fast")], all=["Fast"]),
+                   mod("app", ops=flat(frm("impl", "Fast"), cls("Slow", body=[fn("run")]), cls("Mid", "Fast"), cls("Job", "Mid", "Slow"),
+                                       alias("go", "Job.run"), cls("Direct", "Fast", "Slow"), alias("direct", "Direct.run"))),
+                   mod("user", ops=flat(frm("app", "go", "started"), imp("app"), alias("again", "app.go")))],
+                  "C04", members="moved-grand-base-multiple-inheritance")
     chain = flat(cls("Base", body=flat(cls("In"), var("v"))), cls("Mid", "Base"), cls("Leaf", "Mid"))
     yield project([mod("p", pkg=True), mod("a", 1, ops=chain), mod("b", 1, ops=flat(frm("a", "Leaf", lvl=1), cls("X", "Leaf.In"), alias("vv", "Leaf.v")))],
                   "C04", members="chain")
